@@ -1,3 +1,466 @@
-use crate::ctx::Ctx;
-pub fn c11(_c: &mut Ctx) {}
-pub fn c12(_c: &mut Ctx) {}
+//! C11 (`var`) and C12 (`missing`, `missing_some`).
+
+use crate::corpus::*;
+use crate::ctx::{type_name, Ctx};
+use crate::observe::Outcome;
+use crate::refsem::{self, MOut};
+use serde_json::{json, Value};
+
+fn path_of(segs: &[String]) -> String {
+    segs.iter().map(|s| escape_seg(s)).collect::<Vec<_>>().join(".")
+}
+
+/// Replace the node at `segs` (concrete keys / indices) by `new`.
+fn replace_at(d: &Value, segs: &[String], new: &Value) -> Value {
+    if segs.is_empty() {
+        return new.clone();
+    }
+    match d {
+        Value::Object(m) => {
+            let mut m2 = m.clone();
+            if let Some(c) = m.get(&segs[0]) {
+                m2.insert(segs[0].clone(), replace_at(c, &segs[1..], new));
+            }
+            Value::Object(m2)
+        }
+        Value::Array(a) => {
+            let mut a2 = a.clone();
+            if let Ok(i) = segs[0].parse::<usize>() {
+                if i < a.len() {
+                    a2[i] = replace_at(&a[i], &segs[1..], new);
+                }
+            }
+            Value::Array(a2)
+        }
+        other => other.clone(),
+    }
+}
+
+fn fixed_trees() -> Vec<Value> {
+    vec![
+        json!({"a": {"b": {"c": 1}}, "a.b": "dotted", "a\\b": "backslash", "x": null, "e": "", "z": [], "0": "zero-key", "-1": "minus-one-key",
+               "arr": [10, [20, 21], {"k": "v"}, null, "str"], "s": "héllo😀", "": {"": "empty-empty", "q": 1}, "é": {"日": 3}, "n": {"1": "one-key", "01": "zero-one"}}),
+        json!([1, [2, [3, [4]]], {"a": [5, 6]}, "日本語", null, "", []]),
+        json!("a😀é日\u{301}z"),
+        json!({"secret": 42, "var": {"var": "secret"}, "default": {"log": "LEAK-d"}}),
+        json!(5),
+        json!(null),
+        json!(true),
+        json!({}),
+        json!([]),
+        json!(""),
+    ]
+}
+
+fn c11_case(ctx: &mut Ctx, rule: &Value, data: &Value, cls: &str) -> Outcome {
+    let (obs, mo) = ctx.check("c11.model", rule, data);
+    ctx.cell(&format!("var:{}:{}", cls, match mo {
+        MOut::Val(_) => "value",
+        MOut::Err => "err",
+        MOut::Unj(_) => "unjudged",
+    }));
+    obs.out
+}
+
+fn c11_tree(ctx: &mut Ctx, tree: &Value) {
+    let paths = all_paths(tree);
+    let sentinel = json!({"__sentinel__": 987654321});
+    // whole-data forms
+    for rule in [json!({"var": []}), json!({"var": ""}), json!({"var": null}), json!({"var": [""]}), json!({"var": [null, "dflt"]}), json!({"var": ["", "dflt"]})] {
+        let out = c11_case(ctx, &rule, tree, "whole-data");
+        ctx.mon("c11.whole-data").observed += 1;
+        ctx.mon("c11.whole-data").judged += 1;
+        if !matches!(&out, Outcome::Ok(v) if v.to_string() == tree.to_string()) {
+            ctx.violation("c11.whole-data", "whole-data", &rule, tree, json!({"ok": tree}), out.brief(), "null / empty / operand-less var did not return the entire data");
+        }
+    }
+    for (segs, node) in paths.iter() {
+        if segs.last().map(|s| s.is_empty()).unwrap_or(true) {
+            continue; // a trailing empty key cannot be written as a path
+        }
+        let p = path_of(segs);
+        if p.is_empty() {
+            continue;
+        }
+        // derived path: must be found and equal to that node (needs no model)
+        let rule = json!({ "var": p });
+        let out = c11_case(ctx, &rule, tree, "derived-path");
+        ctx.mon("c11.derived-path").observed += 1;
+        ctx.mon("c11.derived-path").judged += 1;
+        if !matches!(&out, Outcome::Ok(v) if v.to_string() == node.to_string()) {
+            ctx.violation("c11.derived-path", &format!("derived-path:depth{}", segs.len().min(4)), &rule, tree, json!({"ok": node}), out.brief(), "the path of an existing node did not resolve to that node");
+        }
+        // present (even null) wins over the default
+        let rule_d = json!({"var": [p, sentinel]});
+        let out_d = c11_case(ctx, &rule_d, tree, "present-with-default");
+        ctx.mon("c11.default").observed += 1;
+        ctx.mon("c11.default").judged += 1;
+        if !matches!(&out_d, Outcome::Ok(v) if v.to_string() == node.to_string()) {
+            ctx.violation("c11.default", &format!("default-over-present:{}", type_name(node)), &rule_d, tree, json!({"ok": node}), out_d.brief(), "a present value was not returned in preference to the default");
+        }
+        // computed key
+        let halves = p.chars().count() / 2;
+        let (h1, h2): (String, String) = (p.chars().take(halves).collect(), p.chars().skip(halves).collect());
+        c11_case(ctx, &json!({"var": [{"cat": [h1, h2]}]}), tree, "computed-key");
+        // frame law: mutate off-path subtrees, the result must not change
+        if ctx.rng.chance(1, 2) {
+            let mut mutated = tree.clone();
+            let mut did = 0;
+            for _ in 0..3 {
+                let (q, _) = &paths[ctx.rng.below(paths.len())];
+                let n = q.len().min(segs.len());
+                let diverges = (0..n).any(|i| q[i] != segs[i]);
+                if diverges {
+                    let nv = rand_value(&mut ctx.rng, 2);
+                    mutated = replace_at(&mutated, q, &nv);
+                    did += 1;
+                }
+            }
+            if did > 0 {
+                let out2 = ctx.observe(&rule, &mutated).out;
+                ctx.mon("c11.frame").observed += 1;
+                ctx.mon("c11.frame").judged += 1;
+                let same = match (&out, &out2) {
+                    (Outcome::Ok(a), Outcome::Ok(b)) => a.to_string() == b.to_string(),
+                    (Outcome::Err(_), Outcome::Err(_)) => true,
+                    _ => false,
+                };
+                if !same {
+                    ctx.violation("c11.frame", "frame", &rule, &mutated, out.brief(), out2.brief(), "changing data not named by the path changed the result");
+                }
+            }
+        }
+        let nontrivial = segs.len() >= 2 || p.contains('\\') || matches!(node, Value::Null);
+        if nontrivial {
+            ctx.mark_nontrivial(&rule, tree);
+        }
+        // perturbed paths: one segment changed / index moved out of range -> absent -> default
+        let mut pert = segs.clone();
+        let i = ctx.rng.below(pert.len());
+        pert[i] = match ctx.rng.below(5) {
+            0 => format!("{}~", pert[i]),
+            1 => "9999".to_string(),
+            2 => "-9999".to_string(),
+            3 => i64::MIN.to_string(),
+            _ => i64::MAX.to_string(),
+        };
+        let pp = path_of(&pert);
+        c11_case(ctx, &json!({"var": [pp, "DEFAULT"]}), tree, "perturbed");
+        c11_case(ctx, &json!({ "var": pp }), tree, "perturbed");
+    }
+    // indices into arrays and strings at every node that is one: -len-1 ..= len, as integer keys and as path segments
+    let mut nodes: Vec<(Vec<String>, Value)> = vec![(vec![], tree.clone())];
+    nodes.extend(paths.iter().cloned());
+    for (segs, node) in nodes.iter() {
+        let len = match node {
+            Value::Array(a) => a.len() as i64,
+            Value::String(s) => s.chars().count() as i64,
+            Value::Object(_) => 2,
+            _ => continue,
+        };
+        if segs.last().map(|s| s.is_empty()).unwrap_or(false) {
+            continue;
+        }
+        let prefix = path_of(segs);
+        for i in (-len - 2)..=(len + 1) {
+            if segs.is_empty() {
+                // integer key straight into the data
+                let rule = json!({ "var": i });
+                c11_case(ctx, &rule, tree, "integer-key");
+                c11_case(ctx, &json!({"var": [i, "DEFAULT"]}), tree, "integer-key");
+                let multibyte = matches!(node, Value::String(s) if s.len() != s.chars().count());
+                if multibyte || i < 0 {
+                    ctx.mark_nontrivial(&rule, tree);
+                }
+                c11_case(ctx, &json!({ "var": i.to_string() }), tree, "index-segment");
+            } else {
+                let rule = json!({ "var": format!("{}.{}", prefix, i) });
+                c11_case(ctx, &rule, tree, "index-segment");
+                if i < 0 || i >= len - 1 {
+                    ctx.mark_nontrivial(&rule, tree);
+                }
+            }
+        }
+    }
+    for k in [i64::MIN, i64::MIN + 1, i64::MAX, -1, 0] {
+        c11_case(ctx, &json!({ "var": k }), tree, "integer-key-extreme");
+        c11_case(ctx, &json!({ "var": k.to_string() }), tree, "integer-key-extreme");
+        c11_case(ctx, &json!({ "var": format!("arr.{}", k) }), tree, "integer-key-extreme");
+    }
+}
+
+pub fn c11(ctx: &mut Ctx) {
+    let mut idx = 0u64;
+    for t in fixed_trees() {
+        idx += 1;
+        if ctx.mine(idx) {
+            c11_tree(ctx, &t);
+        }
+    }
+    // hostile key spellings on fixed data
+    let d = fixed_trees().remove(0);
+    for k in ["a.b", "a\\.b", "a\\\\b", "a\\b", "a.b.c", "a.b.c.d", "arr.1.0", "arr.1.-1", "arr.-1", "arr.-5", "arr.-6", "arr.5", "arr.2.k", "s.0", "s.1", "s.-1", "s.5", "s.6", "s.-6", "s.-7",
+              ".", "..", "a.", ".a", "a..b", "\\", "a\\", ".q", "..q", "x", "x.y", "e", "e.0", "z", "z.0", "0", "-1", "n.1", "n.01", "arr.01", "arr.+1", "arr.1.", "arr. 1", "arr.1e0", "arr.-0", "é.日", "é.日.x",
+              "arr.18446744073709551616", "arr.9223372036854775808", "arr.-9223372036854775809", "s.١", "arr.1_0"] {
+        idx += 1;
+        if ctx.mine(idx) {
+            c11_case(ctx, &json!({ "var": k }), &d, "spelling");
+            c11_case(ctx, &json!({"var": [k, "DEFAULT"]}), &d, "spelling");
+        }
+    }
+    // key types
+    for k in ["1.5", "1.0", "1e0", "9223372036854775808", "true", "[\"a\"]", "{\"a\":1}", "[]", "-0.0"] {
+        idx += 1;
+        if ctx.mine(idx) {
+            c11_case(ctx, &json!({"var": [parse(k)]}), &d, "odd-key-type");
+            c11_case(ctx, &json!({"var": [parse(k), 1]}), &json!([1, 2]), "odd-key-type");
+        }
+    }
+    // defaults: literal, computed, null-valued targets
+    for (rule, data) in [
+        (json!({"var": ["zz", {"var": "a"}]}), json!({"a": 7})),
+        (json!({"var": ["zz", {"var": "x"}]}), json!({"x": {"var": "secret"}, "secret": 42})),
+        (json!({"var": ["x", 5]}), json!({"x": null})),
+        (json!({"var": ["x.y", 5]}), json!({"x": null})),
+        (json!({"var": ["x.y", null]}), json!({"x": {"y": false}})),
+        (json!({"var": [{"var": "k"}, {"var": "d"}]}), json!({"k": "v.0", "v": [null], "d": "D"})),
+        (json!({"var": [{"var": "k"}, {"var": "d"}]}), json!({"k": "v.1", "v": [null], "d": "D"})),
+    ] {
+        idx += 1;
+        if ctx.mine(idx) {
+            c11_case(ctx, &rule, &data, "default");
+            ctx.mark_nontrivial(&rule, &data);
+        }
+    }
+    ctx.exhaustive_parts.push("every node path of 10 fixed hostile trees (derived path, default, computed key, perturbation), every index -len-2..len+1 at every array / string node, 53 key spellings".into());
+    let n = ctx.budget(250, 50_000);
+    for _ in 0..n {
+        let t = rand_data(&mut ctx.rng, 4, 8, &mut 0);
+        c11_tree(ctx, &t);
+        if ctx.rng.chance(1, 4) {
+            ctx.sample(json!({"tree": t, "paths": all_paths(&t).len()}));
+        }
+    }
+}
+
+// =======================================================================================
+// C12
+
+fn sentinel() -> Value {
+    json!({"__sentinel__": 987654321})
+}
+
+/// "absent" according to the implementation's own `var` (sentinel default trick).
+fn var_says_absent(ctx: &mut Ctx, data: &Value, key: &Value) -> Option<bool> {
+    let rule = json!({"var": [{"var": "k"}, {"var": "s"}]});
+    // the key and the sentinel travel through a wrapper so that operation-shaped keys stay inert;
+    // the lookup itself must see the original data, so do it directly instead:
+    let _ = rule;
+    let direct = json!({"var": [key, sentinel()]});
+    if refsem::as_op(key).is_some() || key.is_array() {
+        return None;
+    }
+    match ctx.observe(&direct, data).out {
+        Outcome::Ok(v) => Some(v == sentinel()),
+        _ => None,
+    }
+}
+
+fn c12_missing(ctx: &mut Ctx, data: &Value, keys: &[Value], form: usize) {
+    let rule = match form {
+        0 => json!({ "missing": keys }),
+        1 => json!({"missing": [keys]}),
+        2 => json!({"missing": [keys, "ignored-extra", "zz"]}),
+        3 => json!({"missing": {"merge": [keys]}}),
+        _ => json!({"missing": [{"var": "__keys"}]}),
+    };
+    let mut data = data.clone();
+    if form == 4 {
+        match &mut data {
+            Value::Object(m) => {
+                m.insert("__keys".into(), Value::Array(keys.to_vec()));
+            }
+            _ => return,
+        }
+    }
+    if form == 0 && keys.first().map(|k| k.is_array()).unwrap_or(false) {
+        return;
+    }
+    let (obs, mo) = ctx.check("c12.missing.model", &rule, &data);
+    ctx.cell(&format!("missing:form{}:{}", form, match mo {
+        MOut::Val(_) => "value",
+        MOut::Err => "err",
+        MOut::Unj(_) => "unjudged",
+    }));
+    // agreement with var (a relation between two operators; no model involved)
+    if let Outcome::Ok(Value::Array(got)) = &obs.out {
+        let mut want: Vec<Value> = Vec::new();
+        let mut decidable = true;
+        for k in keys {
+            if k.is_null() {
+                continue;
+            }
+            match var_says_absent(ctx, &data, k) {
+                Some(true) => want.push(k.clone()),
+                Some(false) => {}
+                None => decidable = false,
+            }
+        }
+        ctx.mon("c12.missing.var-agreement").observed += 1;
+        if decidable {
+            ctx.mon("c12.missing.var-agreement").judged += 1;
+            if Value::Array(want.clone()).to_string() != Value::Array(got.clone()).to_string() {
+                ctx.violation("c12.missing.var-agreement", &format!("missing-vs-var:form{}", form), &rule, &data, json!(want), obs.out.brief(), "missing does not report exactly the keys that var cannot find");
+            }
+        }
+    }
+    let has_dup = keys.iter().enumerate().any(|(i, k)| keys[..i].contains(k));
+    let has_null = keys.iter().any(|k| k.is_null());
+    let null_valued = keys.iter().any(|k| matches!(refsem::lookup(&data, k), refsem::Look::Present(Value::Null)) && !k.is_null());
+    if has_dup || has_null || null_valued {
+        ctx.mark_nontrivial(&rule, &data);
+        if has_dup { ctx.cell("missing:duplicate-keys"); }
+        if has_null { ctx.cell("missing:null-key"); }
+        if null_valued { ctx.cell("missing:null-valued-present-key"); }
+    }
+}
+
+fn c12_some(ctx: &mut Ctx, data: &Value, need: u64, keys: &[Value], computed: bool) {
+    let rule = if computed { json!({"missing_some": [need, {"merge": [keys]}]}) } else { json!({"missing_some": [need, keys]}) };
+    let (obs, mo) = ctx.check("c12.missing_some.model", &rule, data);
+    ctx.cell(&format!("missing_some:need={}:{}", need.min(7), match &mo {
+        MOut::Val(Value::Array(a)) if a.is_empty() => "met",
+        MOut::Val(_) => "not-met",
+        MOut::Err => "err",
+        MOut::Unj(_) => "unjudged",
+    }));
+    // laws against the implementation's own var: an absent key never counts as present
+    if let Outcome::Ok(Value::Array(got)) = &obs.out {
+        let mut present_mult = 0u64;
+        let mut present_distinct: Vec<&Value> = Vec::new();
+        let mut absent_distinct: Vec<Value> = Vec::new();
+        let mut decidable = true;
+        for k in keys {
+            if k.is_null() {
+                continue;
+            }
+            match var_says_absent(ctx, data, k) {
+                Some(true) => {
+                    if !absent_distinct.contains(k) {
+                        absent_distinct.push(k.clone());
+                    }
+                }
+                Some(false) => {
+                    present_mult += 1;
+                    if !present_distinct.contains(&k) {
+                        present_distinct.push(k);
+                    }
+                }
+                None => decidable = false,
+            }
+        }
+        ctx.mon("c12.missing_some.laws").observed += 1;
+        if decidable {
+            ctx.mon("c12.missing_some.laws").judged += 1;
+            let nulls = keys.iter().filter(|k| k.is_null()).count() as u64;
+            // upper bound on any reading of "number of listed keys present"
+            let max_present = present_mult + nulls;
+            let min_present = present_distinct.len() as u64;
+            if max_present < need && Value::Array(got.clone()).to_string() != Value::Array(absent_distinct.clone()).to_string() {
+                ctx.violation("c12.missing_some.laws", "absent-counted-as-present", &rule, data, json!(absent_distinct), obs.out.brief(), "fewer than the required number of keys are present, yet the distinct missing keys were not returned");
+            }
+            if min_present >= need && !got.is_empty() {
+                ctx.violation("c12.missing_some.laws", "met-but-nonempty", &rule, data, json!([]), obs.out.brief(), "enough keys are present but the result is not empty");
+            }
+            if !got.is_empty() && Value::Array(got.clone()).to_string() != Value::Array(absent_distinct.clone()).to_string() {
+                ctx.violation("c12.missing_some.laws", "not-the-distinct-missing-keys", &rule, data, json!(absent_distinct), obs.out.brief(), "a non-empty result is not the distinct missing keys in order");
+            }
+        }
+    }
+    let has_dup = keys.iter().enumerate().any(|(i, k)| keys[..i].contains(k));
+    if has_dup || need == 0 || need > 2 || keys.iter().any(|k| k.is_null()) {
+        ctx.mark_nontrivial(&rule, data);
+        if has_dup { ctx.cell("missing_some:duplicate-keys"); }
+    }
+}
+
+pub fn c12(ctx: &mut Ctx) {
+    let trees = vec![
+        json!({}),
+        json!({"a": 1, "b": null, "c": "", "d": [], "e": {"f": 0, "g": null}, "arr": [1, null], "0": "z", "a.b": 1}),
+        json!({"b": 1}),
+        json!([10, null, "x"]),
+        json!(null),
+        json!("str"),
+    ];
+    let key_pool: Vec<Value> = vec![json!("a"), json!("b"), json!("c"), json!("d"), json!("zz"), json!("e.f"), json!("e.g"), json!("e.h"), json!("arr.1"), json!("arr.2"), json!("arr.-1"), json!(0), json!(1), json!(5), json!(-1), Value::Null, json!(""), json!("a\\.b"), json!("a.b"), json!("yy")];
+    let mut idx = 0u64;
+    // exhaustive: all key lists of length 0..2 over the pool, and lists with duplicates of length 3
+    for t in trees.iter() {
+        c12_missing(ctx, t, &[], 0);
+        for a in key_pool.iter() {
+            for form in 0..5 {
+                idx += 1;
+                if ctx.mine(idx) {
+                    c12_missing(ctx, t, &[a.clone()], form);
+                }
+            }
+            for b in key_pool.iter() {
+                idx += 1;
+                if !ctx.mine(idx) {
+                    continue;
+                }
+                c12_missing(ctx, t, &[a.clone(), b.clone()], (idx % 5) as usize);
+                c12_missing(ctx, t, &[a.clone(), b.clone(), a.clone()], 1);
+                for need in 0..=4u64 {
+                    c12_some(ctx, t, need, &[a.clone(), b.clone()], false);
+                    c12_some(ctx, t, need, &[a.clone(), a.clone()], false);
+                    c12_some(ctx, t, need, &[a.clone(), b.clone(), a.clone()], need % 2 == 0);
+                    c12_some(ctx, t, need, &[b.clone(), a.clone(), a.clone(), b.clone()], false);
+                }
+            }
+        }
+    }
+    ctx.exhaustive_parts.push("6 data trees x all key lists of length <= 2 (and duplicate patterns aba / aa / baab) over a 20-key pool x thresholds 0..4 x 5 ways of supplying the list".into());
+    // odd operands
+    for (rule, data) in [
+        (json!({"missing_some": [1, "a"]}), json!({})),
+        (json!({"missing_some": [-1, ["a"]]}), json!({})),
+        (json!({"missing_some": [1.5, ["a"]]}), json!({})),
+        (json!({"missing_some": ["1", ["a"]]}), json!({})),
+        (json!({"missing_some": [1, [true]]}), json!({})),
+        (json!({"missing_some": [1, ["a", [1]]]}), json!({"a": 1})),
+        (json!({"missing": [[]]}), json!({})),
+        (json!({"missing": [true]}), json!({})),
+        (json!({"missing": [1.5]}), json!([1, 2])),
+        (json!({"missing": "a"}), json!({})),
+        (json!({"missing": {"var": "need"}}), json!({"need": ["a", "b"], "a": 1})),
+    ] {
+        ctx.check("c12.missing.model", &rule, &data);
+    }
+    let n = ctx.budget(6_000, 800_000);
+    for _ in 0..n {
+        let t = rand_data(&mut ctx.rng, 3, 0, &mut 0);
+        let k = ctx.rng.below(7);
+        let mut keys: Vec<Value> = Vec::new();
+        for _ in 0..k {
+            let r = &mut ctx.rng;
+            let key = match r.below(10) {
+                0 => Value::Null,
+                1 => json!(r.range(-3, 3)),
+                2 if !keys.is_empty() => keys[r.below(keys.len())].clone(),
+                3 => r.pick(&key_pool).clone(),
+                _ => Value::String(rand_path(r, &t)),
+            };
+            keys.push(key);
+        }
+        let form = ctx.rng.below(5);
+        c12_missing(ctx, &t, &keys, form);
+        let need = ctx.rng.below(k + 2) as u64;
+        let computed = ctx.rng.chance(1, 4);
+        c12_some(ctx, &t, need, &keys, computed);
+        if ctx.rng.chance(1, 50) {
+            ctx.sample(json!({"data": t, "keys": keys, "need": need}));
+        }
+    }
+}
